@@ -33,7 +33,7 @@ def run(prop, tags, title, extra_checks=None, assumptions=(), replay_handler="vv
                    label="parametric symbolic evaluation of the real NumPy backend on object-dtype arrays of opaque tokens: element i of every result is term-identical to the "
                          "object-backend result for element i - for every value (only the array shapes are bounded); extraction change: backends.numpy._is_type_safe accepts the object dtype; "
                          "operations applying Python comparison operators to columns are not evaluable this way and stay bounded")
-        extra += [(oid, d) for r in rs for p_, oid, d in r[1]]
+        extra += [(oid, d) for r in rs for p_, oid, d in r[1] if p_ == "C03"]
         n_extra += sym["obligations"]
     if extra_checks:
         F = E.Fails()
